@@ -535,6 +535,13 @@ def execute(case, mon):
             handle.remove()
     if warm is not None:
         soft.run(_cmp, mon, "rank-change-history", warm.squeeze(0), out, c_sum, dtype)
+    if case["seed"] % 3 == 0 and q.dtype.is_floating_point:
+        # the same call as part of an autograd graph (training): the same numbers
+        with torch.enable_grad():
+            og = soft.run(_call, mon, mod, q.clone().requires_grad_(True), k.clone().requires_grad_(True),
+                          v.clone().requires_grad_(True), mask, name + "(grad enabled)")
+        if og is not None:
+            soft.run(_cmp, mon, "grad-mode-independence", og.detach(), out, c_sum, dtype)
     if not multi and case["seed"] % 5 == 0 and dtype == "float32":
         # integer-typed values (counts, class indicators) are values like any other
         vi = v.round().to(torch.int64)
